@@ -192,7 +192,7 @@ SPECS = {
 
 
 HANDLE_MAKERS = ("var", "pair", "const", "map", "mapref", "mapold", "fold", "zip", "dependon", "bind", "observe", "observeexport",
-                 "mapexport", "subscribe", "memonew", "memocall", "expert", "varmap", "permapi", "permapiom", "adddep")
+                 "mapexport", "subscribe", "memonew", "memocall", "expert", "varmap", "permapi", "permapiom", "perfilter", "perfilterom", "adddep")
 
 
 def oracle_for(spec, hid):
